@@ -120,7 +120,9 @@ fo("C01","Ghost counters updated atomically at builder entry/exit assert that no
    "at most one build per key in flight")
 fo("C02","When a Get returns, a provenance oracle (evaluated atomically with ghost state recording which builder invocations finished with which outcome) asserts: a nil-error value is the key's initially stored value or the token of a finished successful build for that key; an error is a finished failing build's error for that key (or an injected backend fault). The sequential harness additionally injects backend read/write faults at every call position of a lone Get on both APIs.",
    "a value returned with nil error|an error returned was produced|get returned", seq=["verifH_C02_SeqFaults","verifH_C02_SeqFaultsOf"],
-   quick_l2=FOQ+["verifL_Failover_2_faults:l2","verifL_FailoverOf_2_faults:l2"])
+   quick_l2=FOQ+["verifL_Failover_2_faults:l2","verifL_FailoverOf_2_faults:l2"],
+   thorough_l2=FOT+["verifL_Failover_2_prior:l2","verifL_FailoverOf_2_prior:l2"],
+   extra_expl=" Thorough tier: the *_prior compositions put one complete Get (any key, either builder outcome, with its background build) in front of the concurrent burst, so whatever a finished Get leaves behind in the Failover is part of the initial state (FailHard and MaxStaleness fixed there).")
 fo("C04","Every schedule is checked for deadlock (a maximal execution in which a thread rests at a Lock or channel receive that the final state does not let through), for close of a closed channel and unlock of an unlocked mutex; at quiescence (all Gets and background builds finished) the key-lock map is empty and no build is in flight.",
    "no key lock remains|no build in flight|auto:no-deadlock|auto:close|quiescence|never observes the caller|stored under the key its Get",
    quick_l2=FOQ+["verifL_Failover_1_env:l2","verifL_FailoverOf_1_env:l2"], thorough_l2=FOT+["verifL_Failover_2_env:l2","verifL_FailoverOf_2_env:l2"],
